@@ -569,6 +569,42 @@ func space3() {
 	w.R.Scenarios["malformed_strings"] = map[string]interface{}{"alphabet": string(alpha), "max_len": L, "this_shard": n}
 }
 
+type namedInt int
+
+// space4: the parameters are numbers whatever Go integer type the caller holds them in (a colour
+// component is a uint8 or an int32, a Color is an int64-based type): the value is what the
+// stack machine gets
+func space4() {
+	convs := []struct {
+		name string
+		f    func(int) interface{}
+	}{
+		{"int8", func(v int) interface{} { return int8(v) }}, {"int16", func(v int) interface{} { return int16(v) }},
+		{"int32", func(v int) interface{} { return int32(v) }}, {"int64", func(v int) interface{} { return int64(v) }},
+		{"uint", func(v int) interface{} { return uint(v) }}, {"uint8", func(v int) interface{} { return uint8(v) }},
+		{"uint16", func(v int) interface{} { return uint16(v) }}, {"uint32", func(v int) interface{} { return uint32(v) }},
+		{"uint64", func(v int) interface{} { return uint64(v) }}, {"named int type", func(v int) interface{} { return namedInt(v) }},
+	}
+	if !hc.Mine(0) {
+		return
+	}
+	progs := []string{"%p1%d", "%i%p1%d;%p2%d", "%p1%{1}%+%c", "%?%p1%{7}%>%t%p1%x%e%p2%o%;", "\x1b[38;2;%p1%d;%p2%d;%p3%dm", "%p1%p2%+%d"}
+	for _, prog := range progs {
+		for _, cv := range convs {
+			for _, v := range []int{0, 1, 7, 65, 120} { // (v+2 fits an int8)
+				w.R.Evaluations++
+				resetStatics()
+				ref := (&rt.Machine{}).Eval(prog, v, v+1, v+2)
+				got, pn := evalImpl(prog, []interface{}{cv.f(v), cv.f(v + 1), cv.f(v + 2)})
+				if pn != nil || (ref.Unspecified == "" && got != ref.Out) {
+					w.Violation("param-type:"+cv.name, fmt.Sprintf("TParm(%q, %s(%d), %s(%d), %s(%d)) = %q (panic %v), terminfo(5) gives %q for the parameters %d, %d, %d", prog, cv.name, v, cv.name, v+1, cv.name, v+2, got, pn, ref.Out, v, v+1, v+2),
+						map[string]interface{}{"prog": prog, "params": []int{v, v + 1, v + 2}, "go_type": cv.name})
+				}
+			}
+		}
+	}
+}
+
 func main() {
 	w = hc.Start("C07")
 	w.WatchStall(func() (string, string, interface{}) {
@@ -595,5 +631,6 @@ func main() {
 	space1()
 	space2()
 	space3()
+	space4()
 	w.Finish()
 }
